@@ -269,9 +269,9 @@ FoldShape(s) ==
 BatchFailClass(s, obs) ==
   IF obs.ok
   THEN IF ~Canonical(s)
-       THEN IF \E i \in DOMAIN s.txs : "type" \notin Rng(s.txs[i].ikeys)
+       THEN IF Canonical(FoldShape(s)) THEN "key-case"
+            ELSE IF \E i \in DOMAIN s.txs : "type" \notin Rng(FoldKeys(s.txs[i].ikeys))
             THEN "length-compensation"       \* a missing "type" masked by an extra member
-            ELSE IF Canonical(FoldShape(s)) THEN "key-case"
             ELSE "noncanonical-accepted"
        ELSE IF ~obs.reenc \/ ~obs.ok2 THEN "roundtrip-reencode"
        ELSE IF obs.dec1 # Txs(s) THEN "decode-mismatch"
